@@ -228,3 +228,15 @@ def get_sample_snv_PQ(vcf_record):
     pq = np.array([d[FORMAT.SQ.id] for d in vcf_record.samples.values()]).astype('U')
     pq[pq == 'None'] = '.'
     return np.tile(pq, (n_pos, 1))
+
+
+def main(command):
+    warnings.warn('THIS PROGRAM IS EXPERIMENTAL!!!', ExperimentalFeatureWarning)
+    parser = argparse.ArgumentParser('Split MCHap haplotype calls into phased blocks of basis SNVs.')
+    arguments.Parameter('haplotypes', dict(type=str, nargs=1, default=[None], help='VCF file containing haplotype variants to be atomized. This file must contain INFO/SNVPOS. The INFO/DP and FORMAT/DP fields will be calculated from FORMAT/SNVDP if present in the input  VCF file. The INFO/ACP and FORMAT/DS fields will be calculated from FORMAT/ACP or FORMAT/AFP if either is present in the input VCF file. Note that the FORMAT/ACP or FORMAT/AFP fields from the input VCF file will be normalized in the event that they do not sum to ploidy or one respectively.')).add_to(parser)
+    if len(command) < 3:
+        parser.print_help()
+        sys.exit(1)
+    args = parser.parse_args(command[2:])
+    path = args.haplotypes[0]
+    atomize_vcf(path, command=command)
